@@ -1,39 +1,97 @@
 #!/usr/bin/env python3
-"""tools/seedtest.py [<seeded dir> ...]  (default: every /verif/seeded/*/)
-For each seeded change: apply patch.diff to /repo's working tree, run the quick check of the
-property it breaks (meta.json: property), undo the patch, and record whether the check
-reported a VIOLATION. Results are printed and written to seeded/<id>/result.json.
-Never commits anything in /repo."""
-import sys, os, json, subprocess, glob, time
+"""tools/seedtest.py [--lanes N] [--tier quick] [<seeded dir> ...]   (default: every /verif/seeded/*/)
+
+For each seeded change: apply patch.diff to a working tree of hydraide, run the quick check of the
+property it breaks (meta.json: property [+ also_check]), undo the patch, and record whether the
+check reported a VIOLATION. Results are printed and written to seeded/<id>/result.json.
+
+--lanes 1 (default): uses /repo itself and /verif itself (git apply ... git checkout -- .); nothing is
+ever committed there. --lanes N>1: N scratch lanes under /tmp/seedlanes/<k>/{verif,repo} (detached
+worktrees of the committed /verif HEAD and /repo HEAD; removed afterwards) run in parallel with
+VERIF_REPO pointing at the lane's repo copy."""
+import sys, os, json, subprocess, glob, time, threading, queue, shutil
 V = os.path.dirname(os.path.dirname(os.path.abspath(__file__)))
-dirs = sys.argv[1:] or sorted(glob.glob(os.path.join(V, "seeded", "*", "")))
-def git(*a):
-    return subprocess.run(["git", "-C", "/repo"] + list(a), capture_output=True, text=True)
-if git("status", "--porcelain").stdout.strip():
-    sys.exit("/repo working tree is not clean")
-rows = []
-for d in dirs:
-    d = d.rstrip("/")
+args = sys.argv[1:]
+lanes, tier = 1, "quick"
+while args and args[0].startswith("--"):
+    if args[0] == "--lanes":
+        lanes = int(args[1]); args = args[2:]
+    elif args[0] == "--tier":
+        tier = args[1]; args = args[2:]
+    else:
+        sys.exit("unknown option " + args[0])
+dirs = [os.path.abspath(d.rstrip("/")) for d in (args or sorted(glob.glob(os.path.join(V, "seeded", "*", ""))))]
+
+def git(repo, *a):
+    return subprocess.run(["git", "-C", repo] + list(a), capture_output=True, text=True)
+
+def run_one(d, verif, repo):
     meta = json.load(open(os.path.join(d, "meta.json")))
     props = meta["property"] if isinstance(meta["property"], list) else [meta["property"]]
-    patch = os.path.abspath(os.path.join(d, "patch.diff"))
-    r = git("apply", "--check", patch)
-    if r.returncode != 0:
-        rows.append((os.path.basename(d), props, "patch does not apply", ""))
-        continue
-    git("apply", patch)
+    patch = os.path.join(d, "patch.diff")
+    rows = []
+    if git(repo, "apply", "--check", patch).returncode != 0:
+        return [(os.path.basename(d), props[0], "patch does not apply", "")]
+    git(repo, "apply", patch)
     try:
         for pid in props + meta.get("also_check", []):
             t0 = time.time()
-            e = dict(os.environ); e["VERIF_NO_SEARCH"] = e.get("VERIF_NO_SEARCH", "0")
-            p = subprocess.run([os.path.join(V, "check"), pid, "--tier", "quick"], capture_output=True, text=True, cwd=V, env=e)
+            e = dict(os.environ); e["VERIF_REPO"] = repo
+            p = subprocess.run([os.path.join(verif, "check"), pid, "--tier", tier], capture_output=True, text=True, cwd=verif, env=e)
             viol = [l for l in p.stdout.splitlines() if l.startswith("VIOLATION")]
+            last = p.stdout.strip().splitlines()[-1] if p.stdout.strip() else ""
+            detail = (viol[0] if viol else last)
+            if viol:
+                try:
+                    rp = json.load(open(os.path.join(verif, viol[0].split("replay=")[1].split()[0])))
+                    detail += " {kind=%s sig=%s}" % (rp.get("kind"), rp.get("signature", rp.get("what", ""))[:80])
+                except Exception:
+                    pass
             rows.append((os.path.basename(d), pid, "CAUGHT" if p.returncode == 1 and viol else "missed (exit %d)" % p.returncode,
-                         (viol[0] if viol else p.stdout.strip().splitlines()[-1] if p.stdout.strip() else "") + " [%.0fs]" % (time.time() - t0)))
+                         detail + " [%.0fs]" % (time.time() - t0)))
     finally:
-        git("checkout", "--", ".")
-        subprocess.run(["git", "-C", "/repo", "clean", "-fdq", "--", "app", "sdk"], capture_output=True)
-    res = [{"seed": a, "property": b, "result": c, "detail": e_} for a, b, c, e_ in rows if a == os.path.basename(d)]
-    json.dump(res, open(os.path.join(d, "result.json"), "w"), indent=1)
-for r in rows:
-    print("%-28s %-6s %-22s %s" % r)
+        git(repo, "checkout", "--", ".")
+        subprocess.run(["git", "-C", repo, "clean", "-fdq", "--", "app", "sdk"], capture_output=True)
+    json.dump([{"seed": a, "property": b, "result": c, "detail": e_} for a, b, c, e_ in rows], open(os.path.join(d, "result.json"), "w"), indent=1)
+    return rows
+
+allrows = []
+if lanes <= 1:
+    if git("/repo", "status", "--porcelain").stdout.strip():
+        sys.exit("/repo working tree is not clean")
+    for d in dirs:
+        allrows += run_one(d, V, "/repo")
+else:
+    base = "/tmp/seedlanes"
+    shutil.rmtree(base, ignore_errors=True)
+    q = queue.Queue()
+    for d in dirs:
+        q.put(d)
+    lock = threading.Lock()
+    def worker(k):
+        lv, lr = os.path.join(base, str(k), "verif"), os.path.join(base, str(k), "repo")
+        os.makedirs(os.path.join(base, str(k)), exist_ok=True)
+        subprocess.run(["git", "-C", V, "worktree", "add", "-q", "--detach", lv, "HEAD"], check=True)
+        subprocess.run(["git", "-C", "/repo", "worktree", "add", "-q", "--detach", lr, "HEAD"], check=True)
+        try:
+            while True:
+                try:
+                    d = q.get_nowait()
+                except queue.Empty:
+                    break
+                rows = run_one(d, lv, lr)
+                with lock:
+                    allrows.extend(rows)
+                    for r in rows:
+                        print("%-34s %-5s %-20s %s" % r, flush=True)
+        finally:
+            subprocess.run(["git", "-C", V, "worktree", "remove", "--force", lv])
+            subprocess.run(["git", "-C", "/repo", "worktree", "remove", "--force", lr])
+    ts = [threading.Thread(target=worker, args=(k,)) for k in range(lanes)]
+    [t.start() for t in ts]; [t.join() for t in ts]
+    shutil.rmtree(base, ignore_errors=True)
+    print("----")
+for r in sorted(allrows):
+    print("%-34s %-5s %-20s %s" % r)
+c = sum(1 for r in allrows if r[2] == "CAUGHT")
+print("caught %d of %d" % (c, len(allrows)))
